@@ -289,6 +289,14 @@ class Inst:
                         outer, g1 = arr.children()[0], arr.children()[1]
                         for r in array_roots(outer):
                             reads.setdefault(('nested', r.get_id()), {})[idx.get_id()] = idx
+                        # D = Store(D0, i, A): the row read may be the stored row A itself (when g1 == i): g2 is a read position of A too
+                        lay = outer
+                        while z3.is_store(lay):
+                            stored = lay.children()[2]
+                            if z3.is_array(stored):
+                                for r in array_roots(stored):
+                                    reads.setdefault(r.get_id(), {})[idx.get_id()] = idx
+                            lay = lay.children()[0]
                 else:
                     apps.setdefault(t.decl().name(), {})[tuple(a.get_id() for a in t.children())] = t.children()
         # Store(A, i, v): index i is also an interesting ground term for A
